@@ -3,7 +3,7 @@ import vlib
 from vlib import parse_val
 import searchgen as sg
 
-NEED_RG = False
+NEED_RG = True
 MANIFEST = dict(
     text="Coq theorems: MultiLine::run terminates for every input, sink and matcher obeying the find_at contract (the "
          "advance-by-one rule after an empty match), the search resumes with find_at on the WHOLE input (D6 repaired), and "
@@ -44,9 +44,49 @@ def run(ctx):
         if ml and c != r:
             ctx.violation("multi-line search differs from the specification (lines covered by successive find_at matches)",
                           dict(kind=1301, line=line, case=sg.describe(case), code=c, ref=r))
+    cli_strategies(ctx)
     ctx.cov["features"] = feat
     ctx.cov["rule"] = ("random multi-line searcher cases (needles touching/spanning the terminator, anchored needles = "
                        "look-behind); non-trivial = multi-line strategy selected and at least one result event")
+
+
+def cli_strategies(ctx):
+    """rg -U on the same file through the memory map, the file reader (whole file read to the heap) and stdin must
+    print the same results — also when the file has to be transcoded (UTF-16 with BOM: the decoded text is longer
+    than the file) and for files whose size the file system does not report"""
+    import os
+    import subprocess
+    import tempfile
+    rng = ctx.rng
+    n = ctx.count(12)
+    runs = 0
+    words = ["alpha", "beta", "\u4e2d\u6587\u5b57\u7b26", "gamma", "\u6f22\u5b57", "needle", "delta"]
+    with tempfile.TemporaryDirectory(dir=vlib.CACHE) as d:
+        for i in range(n):
+            cjk_heavy = rng.random() < 0.6      # decoded UTF-8 longer than the UTF-16 file
+            pool = (["\u4e2d\u6587\u5b57\u7b26\u4e32\u6f22\u5b57"] * 6 + words) if cjk_heavy else words
+            lines = [" ".join(rng.choice(pool) for _ in range(rng.randint(1, 6))) for _ in range(rng.randint(3, 60))]
+            lines.append("needle tail " + rng.choice(words))
+            text = "\n".join(lines) + "\n"
+            enc = rng.choice(["utf-16le", "utf-16be", "utf-8"])
+            data = {"utf-16le": b"\xff\xfe", "utf-16be": b"\xfe\xff", "utf-8": b""}[enc] + text.encode(enc)
+            f = os.path.join(d, "f%d" % i)
+            open(f, "wb").write(data)
+            pat = rng.choice(["needle", "needle tail \\w+\\n", "\\n\\S+ tail", "a\\n\\S", "\\p{Han}+\\n"])
+            base = [vlib.RG, "--no-config", "--color", "never", "--no-heading", "-n", "-U", "-e", pat]
+            outs = []
+            for mode in ("--mmap", "--no-mmap"):
+                p = subprocess.run(base + ["-I", mode, f], stdin=subprocess.DEVNULL, stdout=subprocess.PIPE, stderr=subprocess.PIPE)
+                outs.append((p.returncode, p.stdout))
+            p = subprocess.run(base + ["-"], stdin=open(f, "rb"), stdout=subprocess.PIPE, stderr=subprocess.PIPE)
+            outs.append((p.returncode, p.stdout))
+            runs += 3
+            ctx.note_case("cli%d" % i + repr((enc, pat, len(data))), outs[0][0] == 0)
+            if not (outs[0] == outs[1] == outs[2]):
+                ctx.violation("rg -U prints different results through --mmap / --no-mmap / stdin",
+                              dict(kind="cli-strategies", encoding=enc, pattern=pat, data_hex=data.hex(),
+                                   outs=[repr(o) for o in outs]))
+    ctx.cov["cli_strategy_runs"] = runs
 
 
 def replay(ctx, data):
